@@ -191,7 +191,7 @@ def tlc(module, cfg=None, env=None, workers=8, timeout=1200, simulate=None, dept
         if m:
             res.violated.append("TemporalProperty")
             continue
-        if line.startswith("Error: Postcondition"):
+        if line.startswith("Error: Postcondition") or line.startswith("Error: The behavior up to this point") or line.startswith("Error: The following behavior"):
             continue
         if line.startswith("Error:") or "Assumption" in line and "is false" in line:
             res.errors.append(line)
